@@ -109,6 +109,13 @@ CLAIMS["C02"] = (
     "DESIGN.md §3 C02",
 )
 
+CLAIMS["C06"] = (
+    "table readers (128-entry digit-class tables, the two inferrer tables indexed by scan type) + SSA effect identification of each inferrer (which strconv parser, base, prefix handling, fallback) + flag-table wiring + who-writes rule for the inferrer variable + token→constructor classification in the JSON scalar decoder",
+    "Decides the tables and wiring that number inference is built from: digit classes equal the documented character sets with guarded accessors; both inferrer tables have one entry per scan type and the entry at each index parses as that scan type denotes (identified by effect, not by name); every numeric inferrer falls back to the original text as a string on parse failure, and out-of-range decimal integers try float first; the 16-digit hex two's-complement window covers both letter cases; -S/-A/-O each select exactly their inferrer and nothing else writes the inferrer variable; JSON strings are never inferred while JSON numbers go through the flag-selected inferrer. It does not decide the language accepted by the hand-written scanner automaton scan.FindScanType, nor numeric values at the 2^63 / 2^64 / 1e308 boundaries.",
+    "Trusts go/ssa and strconv's documented behaviour for ParseInt/ParseUint/ParseFloat. One defect found and fixed (out-of-range decimal integers typed as strings).",
+    "DESIGN.md §3 C06",
+)
+
 NOT_APPLICABLE = {
     "C13": "Join pairing, ordering and unpaired accounting are relational identities over run-time key values and bucket contents; no clause is a shape fact visible to static analysis (the shared protocol facts are reported under C04/C10/C17).",
 }
